@@ -132,18 +132,27 @@ def p5_shape_change(prog):
             row = pop['ret']
             if not (S(push['args'][0]) == gmi['ret'] and pathsem.mentions(push['args'][1], lambda t: t == row) and pathsem.mentions(push['args'][2], lambda t: t == row)):
                 once('row-not-threaded', push['ln'], 'the popped row (identifier and packed components) is not what is pushed into the target archetype')
-            locs = [e for e in p.calls(lambda e: e['name'] == 'new' and 'location::Location' in e['path']) if e['i'] > push['i']]
-            if len(locs) != 1:
-                once('location-new', None, 'expected one Location::new after the push')
+            # the new location: whatever the allocator is handed — `Location::new(identifier, index)` or the struct itself
+            lv = S(mod['args'][2]) if len(mod['args']) > 2 else None
+            ladt = prog.adts.get('entity::allocator::location::Location')
+            lnames = [x['name'] for x in ladt['variants'][0]['fields']] if ladt else []
+            l_id = l_ix = None
+            if isinstance(lv, tuple) and lv[0] == 'call' and lv[1].endswith('location::Location::<R>::new') and len(lv[2]) == 2:
+                l_id, l_ix = lv[2]
+            elif isinstance(lv, tuple) and lv[0] == 'agg' and lv[1] == 'entity::allocator::location::Location' and 'identifier' in lnames and 'index' in lnames:
+                l_id, l_ix = lv[4][lnames.index('identifier')], lv[4][lnames.index('index')]
+            if l_id is None:
+                once('location-new', mod['ln'], 'the allocator is not handed a location built from the target archetype\'s identifier and the new row index')
                 continue
-            lc = locs[0]
-            if S(lc['args'][1]) != push['ret']:
+
+            class _L(dict):
+                pass
+            lc = {'ret': lv, 'ln': mod['ln']}
+            if S(l_ix) != push['ret']:
                 once('location-index', lc['ln'], 'new location does not use the row index returned by the push')
-            ida = S(lc['args'][0])
+            ida = S(l_id)
             if not (isinstance(ida, tuple) and ida[0] == 'call' and ida[1].endswith('::identifier') and S(ida[2][0]) == gmi['ret']):
                 once('location-identifier', lc['ln'], 'new location does not use the target archetype\'s identifier')
-            if S(mod['args'][2]) != lc['ret']:
-                once('allocator-gets-other-location', mod['ln'], 'allocator is not given the new location')
             if not pathsem.mentions(mod['args'][1], lambda t: t == row):
                 once('allocator-gets-other-entity', mod['ln'], 'the location is not updated for the entity that was moved')
             wrote = [e for e in p.events if e['k'] == 'store' and pathsem.is_field_of(e['loc'], 'world::entry::Entry', li) and S(e['value']) == lc['ret']]
